@@ -77,6 +77,9 @@ func (c *Ctx) pfbIterationOpt(fn *ssa.Function, H *ssa.BasicBlock, state int64, 
 				return v, true
 			}
 		}
+		if v, ok := ev.fixedTableLoad(ld, addr); ok { // dispatch through a table of step functions
+			return v, true
+		}
 		switch {
 		case pfbFieldG(a, lenF):
 			return symV("rem"), true
@@ -334,6 +337,9 @@ func (c *Ctx) pfbTables() {
 	}
 	nAccepted := 0
 	wantLen := term("|", symV("b2"), term("<<", symV("b3"), intV(8)), term("<<", symV("b4"), intV(16)), term("<<", symV("b5"), intV(24)))
+	// the same value however it is assembled (shifts written out, accumulated in a loop, sums of
+	// products): the header bytes are 8-bit symbols, bit fields that cannot overlap add up (ext_x8.go)
+	lenWidths := map[string]uint{"b2": 8, "b3": 8, "b4": 8, "b5": 8}
 	for b0 := int64(0); b0 < 256 && bad == ""; b0++ {
 		for b1 := int64(0); b1 < 256; b1++ {
 			it := c.pfbIteration(fn, H, 0, map[int]int64{0: b0, 1: b1}, 2)
@@ -352,7 +358,7 @@ func (c *Ctx) pfbTables() {
 				bad = fmt.Sprintf("header bytes %#02x %#02x are rejected", b0, b1)
 			case valid:
 				nAccepted++
-				if b1 != 3 && ln.String() != wantLen.String() {
+				if b1 != 3 && !bitFieldsAgreeX8(ln, wantLen, lenWidths, 64) {
 					bad = fmt.Sprintf("the segment length is computed as %s, expected the little-endian value %s", ln, wantLen)
 				}
 			}
@@ -545,6 +551,9 @@ func (c *Ctx) pfbExpandOnce(fn *ssa.Function, H *ssa.BasicBlock, n int, rem int6
 				if v, ok := ctl[a[2:]]; ok {
 					return v, true
 				}
+			}
+			if v, ok := ev.fixedTableLoad(ld, addr); ok {
+				return v, true
 			}
 			switch {
 			case pfbFieldG(a, lenF):
